@@ -432,6 +432,14 @@ func shadowTemplates() []shadowTpl {
 		{"global-set/after", "(progn\n{CALL}\n)\n(set '{B} (lambda (&rest a) 0))", 2},
 		{"other-package-defun", "(in-package 'other)\n(defun {B} (&rest a) 0)\n(in-package 'user)\n{CALL}", 4},
 		{"dotimes-var/body", "(dotimes ({B} 1)\n{CALL})", 2},
+		// a shadowing form that is OVER, then the call inside a LATER, unrelated binding form (state kept between forms)
+		{"let/then-inside-later-let", "(let ([{B} (lambda (&rest a) 0)]) 0)\n(let ([zz 1])\n{CALL})", 3},
+		{"let/then-inside-later-let-value", "(let ([{B} (lambda (&rest a) 0)]) 0)\n(let ([zz\n{CALL}]) zz)", 3},
+		{"flet/then-inside-later-let*", "(flet ([{B} (&rest a) 0]) 0)\n(let* ([zz 1])\n{CALL})", 3},
+		{"labels/then-inside-later-flet", "(labels ([{B} (&rest a) 0]) 0)\n(flet ([zg () 1])\n{CALL})", 3},
+		{"macrolet/then-inside-later-labels", "(macrolet ([{B} (&rest a) 0]) 0)\n(labels ([zg () 1])\n{CALL})", 3},
+		{"let-in-defun/then-inside-let-in-later-defun", "(defun zf1 () (let ([{B} (lambda (&rest a) 0)]) 0))\n(defun zf2 () (let ([zz 1])\n{CALL}))\n(zf2)", 3},
+		{"let/then-inside-later-lambda-body", "(let ([{B} (lambda (&rest a) 0)]) 0)\n((lambda (zz)\n{CALL}) 1)", 3},
 		// placements without any shadowing: the call sits in a position of a special form that an analyzer may
 		// mistake for a binding list or skip as "not code"
 		{"placed/dotimes-count", "(dotimes (zi\n{CALL}\n) zi)", 2},
